@@ -151,7 +151,13 @@ P2 = {
     "src/two.f90": "module two\n!! two\ncontains\nsubroutine same()\n!! same in two\nend subroutine same\nsubroutine other()\n!! other\nend subroutine other\nend module two\n",
     "src/three.f90": "subroutine same()\n!! external same\nend subroutine same\nprogram p\n!! prog\nuse one\nuse two, only: other\ncall other()\nend program p\n",
 }
-PROJECTS = {"P1": P1, "P2": P2}
+# several files defining equally named modules (and an equally named type / program-level procedure)
+P3 = {
+    "src/a_util.f90": "module util\n!! util of a\ninteger :: from_a\ncontains\nsubroutine helper()\n!! helper a\nend subroutine helper\nend module util\n",
+    "src/b_util.f90": "module util\n!! util of b\ninteger :: from_b\ntype util_t\n!! type in b\ninteger :: q\nend type util_t\nend module util\n",
+    "src/c_user.f90": "module Util\n!! Util of c (capitalised)\nend module Util\nprogram user\n!! uses a util\nuse util\nend program user\n",
+}
+PROJECTS = {"P1": P1, "P2": P2, "P3": P3}
 # unqualified references from the project-wide context; `stack` names a type and an interface, `same` several procedures
 FRONT = "Front page. [[stack]] [[root_t]] [[shared]] [[main]] [[gamma]] [[same]] [[other]] [[one]] [[nosuch]]\n"
 
